@@ -22,12 +22,21 @@
 (* The alphabets refine Disk.tla's with a `tag` saying WHICH forgery a     *)
 (* damaged element carries (the concretiser needs it to build the bytes;   *)
 (* `Abs*` forget it again before `Recover` is applied):                    *)
-(*   block  Z | H(g) | T(g,1,look) | Xh:tag | M(rem,st) | M:tag | Xm | LM  *)
-(*          | X                                                            *)
+(*   block  Z | H(g) | T(g,1,look) | Xh:tag | Xv:tag | M(rem,st) | M:tag    *)
+(*          | Xm | LM | X                                                  *)
 (*   slot   z | clear(gen) | active(gen,exts) | bad:tag                    *)
 (*   meta   z | ok(ver,gen) | legacy(ver) | forged(ver,gen) | bad:tag      *)
+(* JSON of one image:                                                      *)
+(*   {"b": [[t,g,n,i,look,tag] per data block], "j": [[k,gen,exts] x 2],   *)
+(*    "m": [[k,ver,gen] x 2], "ttl": bool, "size": "ok"|"short"|"unal",    *)
+(*    "fmt": version of the metadata copy the reader picks (3 if none),    *)
+(*    "ds", "de", "valid": every element is something the store writes,    *)
+(*    "pred": [class, [generation exposed for k1, for k2], ghost records,  *)
+(*    fresh], "predAmb": the same with allow_ambiguous_legacy_recovery}    *)
+(*   class = "open" | "InvalidDevice" | "InvalidMetadata" |                *)
+(*           "CorruptedRecord" | "AmbiguousLegacyTombstone"                *)
 (* Size of the full space (SPACE line): |Blk|^4 * |Slot|^2 * |Meta|^2 * 2  *)
-(* * |Size| = 31^4 * 25^2 * 18^2 * 2 * 3 = 1 122 078 015 000 images.       *)
+(* * |Size| = 33^4 * 25^2 * 18^2 * 2 * 3 = 1 440 894 015 000 images.       *)
 (***************************************************************************)
 EXTENDS Disk, Json
 
@@ -36,7 +45,8 @@ CONSTANTS FullBlk,    \* TRUE: whole block alphabet; FALSE: undamaged contents o
           FullMeta,   \* TRUE: whole metadata alphabet; FALSE: valid copies only
           Sizes,      \* file size kinds (subset of {"ok", "short", "unal"})
           Vers,       \* format versions of the valid metadata copies (subset of 1..3)
-          Pin         \* TRUE: journal, second metadata copy and TTL fixed (exhaustive data slice)
+          Pin,        \* TRUE: journal, second metadata copy and TTL fixed (exhaustive data slice)
+          OnlyUndamaged \* TRUE: print only images every element of which the store itself writes
 
 VARIABLES st, blk, j, m, ttl, size
 vars == <<st, blk, j, m, ttl, size>>
@@ -68,12 +78,15 @@ Tails(looks) == {B("T", g, 0, 1, lk, "") : g \in {g \in 1 .. NG : GN[g] = 2}, lk
 \* (valid) token, so the bounds checks are what is exercised.
 HeadTags == {"tok", "klen0", "klenbig", "vlen0", "vlenbig", "ext"}
 BadHeads == {B("Xh", 0, 0, 0, "", tg) : tg \in HeadTags}
+\* well-formed one-block records of a key nobody stored whose timestamp (tsmax: 2^64-1) or expiry
+\* (expmax: 2^64-1) is forged; the token is valid, so the reader must accept them: ghosts
+ForgedValid == {B("Xv", 0, 1, 0, "", tg) : tg \in {"tsmax", "expmax"}}
 GoodMarks == {B("M", 0, rem, s, "", "") : rem \in 1 .. 2, s \in 0 .. 1}
 \* markers with a VALID token and a forged remaining length: 0, past the device end, 2^64-1
 ForgedMarks == {B("M", 0, 0, 1, "", "rem0"), B("M", 0, NB + 5, 1, "", "rempast"), B("M", 0, NB + 5, 1, "", "remmax")}
 Junk == {B("Xm", 0, 0, 0, "", ""), B("LM", 0, 0, 0, "", ""), B("X", 0, 0, 0, "", "")}
 
-BlkAll == {Bz} \cup Heads \cup Tails({"", "H", "M", "Xh", "Xm"}) \cup BadHeads \cup GoodMarks \cup ForgedMarks \cup Junk
+BlkAll == {Bz} \cup Heads \cup Tails({"", "H", "M", "Xh", "Xm"}) \cup BadHeads \cup ForgedValid \cup GoodMarks \cup ForgedMarks \cup Junk
 BlkBenign == {Bz} \cup Heads \cup Tails({""}) \cup {B("M", 0, rem, 1, "", "") : rem \in 1 .. 2}
 BlkAlpha == IF FullBlk THEN BlkAll ELSE BlkBenign
 
@@ -114,7 +127,9 @@ TtlAlpha == IF Pin THEN {TRUE} ELSE BOOLEAN
 \* A head with a non-zero token is fatal for a v1/v2 scan that lands on it (like a bad marker in
 \* every version); every other refused head is fatal in v3 and skipped in v1/v2 (Disk's Xh).
 AbsBlk(c, fmt) ==
-  IF c.t = "Xh" /\ c.tag = "tok" /\ fmt < 3 THEN Xm ELSE C(c.t, c.g, c.n, c.i, c.look)
+  IF c.t = "Xh" /\ c.tag = "tok" /\ fmt < 3 THEN Xm
+  ELSE IF c.t = "Xv" THEN C("T", 0, 0, 0, "H")
+  ELSE C(c.t, c.g, c.n, c.i, c.look)
 AbsSlot(s) ==
   IF s.k = "z" THEN JZ ELSE IF s.k = "clear" THEN J(s.gen, FALSE, <<>>)
   ELSE IF s.k = "active" THEN J(s.gen, TRUE, s.exts) ELSE JBad
@@ -123,13 +138,27 @@ AbsMeta(x) ==
 
 Fmt(mm) == LET mp == MetaPick([c \in 0 .. 1 |-> AbsMeta(mm[c])]) IN IF MetaValid(mp) THEN mp.ver ELSE 3
 
+\* Journal replay writes a complete marker with remaining = 1 on the last block of every coalesced
+\* run.  A continuation block that already IS such a marker byte for byte (look "M") is therefore
+\* left unchanged by the replay, and a head whose token covers it stays valid: Disk's ApplyRetire
+\* would forget that, so such blocks are taken out of the replayed set (the marker written on the
+\* blocks before it then ends one block earlier and the scan lands on the same positions).
+JFix(ab, aj) ==
+  LET jp == JournalPick(aj) IN
+  IF jp.bad \/ ~jp.active THEN aj
+  ELSE LET jb == JBlocks(jp.exts)
+           keep == {b \in jb : ~(ab[b].t = "T" /\ ab[b].look = "M" /\ (b + 1) \notin jb)}
+           exts == SelectSeq([i \in 1 .. NB |-> <<DS + i - 1, 1>>], LAMBDA e : e[1] \in keep)
+       IN [s \in 0 .. 1 |-> IF s = 0 THEN J(1, TRUE, exts) ELSE JZ]
+
 Cls(c, kv, gh, fresh) == <<c, kv, gh, fresh>>      \* class, exposed generation per key, ghosts, fresh
 
 Pred(bb, jj, mm, tt, sz, amb) ==
   IF sz # "ok" THEN Cls("InvalidDevice", <<0, 0>>, 0, FALSE)
   ELSE LET fmt == Fmt(mm)
-           img == [blk |-> [b \in Blocks |-> AbsBlk(bb[b], fmt)],
-                   j |-> [s \in 0 .. 1 |-> AbsSlot(jj[s])],
+           ab == [b \in Blocks |-> AbsBlk(bb[b], fmt)]
+           img == [blk |-> ab,
+                   j |-> JFix(ab, [s \in 0 .. 1 |-> AbsSlot(jj[s])]),
                    m |-> [c \in 0 .. 1 |-> AbsMeta(mm[c])]]
            r == Recover(img, Gens(fmt), Keys, Now, tt, amb)
        IN IF r.ok THEN Cls("open", <<r.kv[1], r.kv[2]>>, Cardinality(r.ghosts), r.fresh)
@@ -181,6 +210,7 @@ PickScenario == /\ st = NB + 4
                 /\ st' = st + 1 /\ UNCHANGED <<blk, j, m>>
 \* deterministic: one successor, so exhaustive search and simulation both print each image once
 Emit == /\ st = NB + 5
+        /\ OnlyUndamaged => Undamaged(blk, j, m, size)
         /\ PrintT(<<"IMG", ToJson(Out)>>)
         /\ st' = st + 1 /\ UNCHANGED <<blk, j, m, ttl, size>>
 
